@@ -427,11 +427,12 @@ add("C19", lambda tier: [cxx_job(1, "options_from"), cxx_job(2, "clone"), cxx_jo
                          cxx_job(4, "methods", unwind=44), cxx_job(5, "containers", unwind=44), cxx_job(6, "enums", unwind=66)])
 
 
-def drain_job(tier, mode, errmode, S=None, F=None):
+def drain_job(tier, mode, errmode, S=None, F=None, io=1):
     S = S if S is not None else (2 if tier == "quick" else 3)
     F = F if F is not None else (0 if tier == "quick" else 1)
-    return Job("h_drain", variant="%s-err%d-S%d-F%d" % ("drain" if mode == 0 else "run", errmode, S, F),
-               defines={"VP_MODE": mode, "VP_S": S, "VP_ERRMODE": errmode, "VP_IO": 1, "VP_MAXEV": S + 1,
+    return Job("h_drain", variant="%s-err%d-S%d-F%d%s" % ("drain" if mode == 0 else "run", errmode, S, F,
+                                                        "" if io else "-silent"),
+               defines={"VP_MODE": mode, "VP_S": S, "VP_ERRMODE": errmode, "VP_IO": io, "VP_MAXEV": S + 1 if io else 1,
                         "VP_NFD": 16, "VP_NOFD": 16, "VP_LOG": 6, "VP_F": F},
                unwind=18, params={"nfd": 16, "retry": 3, "input_max": 0, "drain_iters": S + 4},
                cbmc_flags=["--slice-formula"], timeout=2400, solvers=("cadical", "kissat"),
@@ -449,8 +450,8 @@ prop("C16", units=["reproc/src/drain.c (reproc_drain, sink_string, reproc_sink_s
          "H_sink_string: previous content NULL or <= 3 bytes, chunk <= 3 bytes, realloc may fail",
      ],
      outside=["reproc++/drain.hpp and run.hpp", "chunks larger than the 2-byte pipe model", "more than 8 sink calls"])
-add("C16", lambda tier: [unit_job(6, "sink_string"), drain_job(tier, 0, 1), drain_job(tier, 1, 0)] +
-    ([drain_job(tier, 0, 2), drain_job(tier, 0, 0), drain_job(tier, 1, 1)] if tier == "thorough" else []))
+add("C16", lambda tier: [unit_job(6, "sink_string"), drain_job(tier, 0, 1), drain_job(tier, 1, 0, F=1, io=0)] +
+    ([drain_job(tier, 0, 2), drain_job(tier, 0, 0), drain_job(tier, 1, 0, S=2, F=0)] if tier == "thorough" else []))
 
 
 def frame_job(foot):
@@ -502,3 +503,5 @@ add("C14", lambda tier: [stop_job(3, tier)])
 add("C02", lambda tier: [io_job(tier, 0, F=1)] + start_jobs(tier, 0, types=(1,)))
 add("C11", lambda tier: [static_job()])
 add("C20", lambda tier: start_jobs(tier, 1, F=0, types=(1,)))
+# C03's "the child receives exactly the argument strings passed" on Windows goes through the command line
+add("C03", lambda tier: [win_job(1, "argv-2x2", 2, 2)])
